@@ -936,6 +936,326 @@ struct PairTask : Task
         return std::string(bnames[k]) + "(" + hx(X(i)) + ", " + hx(Y(i)) + ")";
     }
 };
+// ------------------------------------------------------------------------------------------------
+// three-argument hypot(x, y, z): documented exact to rounding.
+// Verdict: exact integer arithmetic.  Finite halves are integers in units of 2^-24 (< 2^40), the sum of the three squares
+// fits an unsigned 128-bit integer (< 2^82); the correctly rounded square root is found by comparing that sum with the squares
+// of binary16 magnitudes and of the midpoint between the two neighbours (ties to even).  Cross reference (harness error on
+// disagreement): MPFR, sum of squares exact at 256 bits, mpfr_sqrt to precision 11 in the binary16 exponent range + subnormalize.
+// Special values (C++17 [c.math.hypot3] / C99 F.9.4.3): any infinite argument gives +inf even if another one is a NaN,
+// otherwise any NaN gives NaN.
+// ------------------------------------------------------------------------------------------------
+typedef unsigned __int128 u128;
+static inline uint64_t hmag(unsigned b)   // |value| * 2^24 for a finite pattern; 2^40 for the infinity pattern 0x7C00
+{
+    unsigned e = (b >> 10) & 31, m = b & 1023;
+    return e ? uint64_t(m | 1024) << (e - 1) : uint64_t(m);
+}
+static u16 round_sqrt_u128(u128 S)        // correctly rounded binary16 of sqrt(S) * 2^-24
+{
+    if (S == 0) return 0;
+    if (S >= (u128(1) << 80)) return 0x7C00;
+    unsigned lo = 0, hi = 0x7C00;          // invariant hmag(lo)^2 <= S < hmag(hi)^2
+    while (hi - lo > 1)
+    {
+        unsigned mid = (lo + hi) / 2;
+        uint64_t m = hmag(mid);
+        if (u128(m) * m <= S) lo = mid; else hi = mid;
+    }
+    uint64_t ms = hmag(lo) + hmag(hi);     // twice the midpoint (for hi == 0x7C00: 2 * 65520 * 2^24)
+    u128 l = S << 2, r = u128(ms) * ms;
+    return u16(l > r ? hi : l < r ? lo : ((lo & 1) ? hi : lo));
+}
+static u16 ref_hypot3_int(u16 x, u16 y, u16 z)
+{
+    if (h_isinf(x) || h_isinf(y) || h_isinf(z)) return 0x7C00;
+    if (h_isnan(x) || h_isnan(y) || h_isnan(z)) return 0x7E00;
+    uint64_t X = hmag(x & 0x7FFF), Y = hmag(y & 0x7FFF), Z = hmag(z & 0x7FFF);
+    return round_sqrt_u128(u128(X) * X + u128(Y) * Y + u128(Z) * Z);
+}
+static mpfr_t mz_, ms_;
+static u16 ref_hypot3_mp(u16 x, u16 y, u16 z)
+{
+    if (h_isinf(x) || h_isinf(y) || h_isinf(z)) return 0x7C00;
+    if (h_isnan(x) || h_isnan(y) || h_isnan(z)) return 0x7E00;
+    static bool init = false;
+    if (!init) { mpfr_init2(mz_, 24); mpfr_init2(ms_, 256); init = true; }
+    range_wide();
+    mpfr_set_d(mx_, h2d(x), MPFR_RNDN);
+    mpfr_set_d(my_, h2d(y), MPFR_RNDN);
+    mpfr_set_d(mz_, h2d(z), MPFR_RNDN);
+    int inex = mpfr_sqr(mw_, mx_, MPFR_RNDN);
+    inex |= mpfr_sqr(ms_, my_, MPFR_RNDN);
+    inex |= mpfr_add(mw_, mw_, ms_, MPFR_RNDN);
+    inex |= mpfr_sqr(ms_, mz_, MPFR_RNDN);
+    inex |= mpfr_add(mw_, mw_, ms_, MPFR_RNDN);
+    if (inex) ref_error("hypot3: sum of squares not exact at 256 bits for " + hx(x) + ", " + hx(y) + ", " + hx(z));
+    range_half();
+    int t = mpfr_sqrt(mr_, mw_, MPFR_RNDN);
+    mpfr_subnormalize(mr_, t, MPFR_RNDN);
+    u16 a = mp2h(mr_);
+    range_wide();
+    cnt(C_MPFR);
+    return a;
+}
+static const char* cls3(u16 b)
+{
+    unsigned e = (b >> 10) & 31, m = b & 1023;
+    if (e == 31) return m ? "nan" : "inf";
+    if (e == 0) return m ? "sub" : "zero";
+    return "norm";
+}
+static unsigned char g_in_a0[65536], g_in_a1[65536], g_in_a2[65536];
+enum { T_CUBE0, T_CUBE1, T_DERIVED, T_TIES };
+static int g_tfamily = T_CUBE0;
+
+// mode 0: integer verdict AND MPFR on every triple; mode 1: double pre-filter, integer arithmetic when it is not decisive,
+// integer + MPFR before any mismatch is reported
+static void do_hypot3(u16 x, u16 y, u16 z, int mode)
+{
+    g_sh->phase = 1;
+    u16 r = bits(half_float::hypot(mk(x), mk(y), mk(z)));
+    if (g_noref) { g_sh->phase = 0; cnt(C_SANEVAL); return; }
+    g_sh->phase = 2;
+    u16 a;
+    bool special = !h_isfinite(x) || !h_isfinite(y) || !h_isfinite(z);
+    bool decided_fast = false;
+    if (mode == 1 && !special)
+    {
+        double dx = h2d(x), dy = h2d(y), dz = h2d(z);
+        double L = std::sqrt(dx * dx + dy * dy + dz * dz);      // squares exact; relative error < 2^-51
+        if (decisive<double>(L)) { a = f2h<double>(L); decided_fast = true; cnt(C_FAST); }
+    }
+    if (!decided_fast) a = ref_hypot3_int(x, y, z);
+    bool mismatch = !same_h(r, a);
+    if (mode == 0 || (mismatch && decided_fast) || mismatch)
+    {
+        u16 ai = ref_hypot3_int(x, y, z), am = ref_hypot3_mp(x, y, z);
+        cnt(C_XCHK_B);
+        if (!same_h(ai, am)) ref_error("hypot3(" + hx(x) + ", " + hx(y) + ", " + hx(z) + "): integer reference " + hx(ai) + " MPFR " + hx(am));
+        if (!same_h(ai, a)) ref_error("hypot3(" + hx(x) + ", " + hx(y) + ", " + hx(z) + "): integer reference " + hx(ai) + " double pre-filter " + hx(a));
+        if (mode == 0 && !special)
+        {
+            double dx = h2d(x), dy = h2d(y), dz = h2d(z);
+            double L = std::sqrt(dx * dx + dy * dy + dz * dz);
+            if (decisive<double>(L) && f2h<double>(L) != ai) ref_error("hypot3(" + hx(x) + ", " + hx(y) + ", " + hx(z) + "): integer reference " + hx(ai) + " decisive double pre-filter " + hx(f2h<double>(L)));
+        }
+        if (special)
+        {
+            float f = ::hypotf(::hypotf(float(h2d(x)), float(h2d(y))), float(h2d(z)));   // class of nested glibc hypotf obeys the same rule
+            xcheck_special("hypot3", f, ai, x, y, true);
+        }
+        a = ai;
+        mismatch = !same_h(r, a);
+    }
+    g_sh->phase = 0;
+    cnt(C_EVAL);
+    u16 ax = x & 0x7FFF, ay = y & 0x7FFF, az = z & 0x7FFF;
+    bool nontriv = h_isfinite(a) && !h_iszero(a) && a != ax && a != ay && a != az;
+    // conservative distinct count: a triple that also belongs to a smaller family is evaluated again but not counted again
+    bool all0 = g_in_a0[x] && g_in_a0[y] && g_in_a0[z], all1 = g_in_a1[x] && g_in_a1[y] && g_in_a1[z];
+    bool first = g_tfamily == T_CUBE0 ? true : g_tfamily == T_CUBE1 ? !all0 : g_tfamily == T_DERIVED ? !all1 : !all1;
+    if (nontriv && first) cnt(C_NONTRIV);
+    if (mismatch)
+    {
+        std::string kind = h_isnan(a) ? "number-for-nan" : h_isnan(r) ? "nan-for-number" : (h_isinf(a) && !h_isinf(r)) ? "finite-for-infinity" :
+                           (h_isinf(r) && !h_isinf(a)) ? "infinity-for-finite" : (r & 0x8000) ? "negative-result" :
+                           std::abs(hkey(r) - hkey(a)) == 1 ? "off-by-1ulp" : "off-by-more-than-1ulp";
+        cnt(C_VIOL);
+        vf::violation(std::string("C09/hypot3/") + cls3(x) + "," + cls3(y) + "," + cls3(z) + "/" + kind,
+                      "hypot(" + hx(x) + ", " + hx(y) + ", " + hx(z) + ") returned " + hx(r) + ", correctly rounded sqrt(x^2+y^2+z^2) is " + hx(a) +
+                          " (exact integer arithmetic, confirmed by MPFR); the function is documented as exact to rounding",
+                      {"--one", "hypot3", hexs(x), hexs(y), hexs(z)});
+    }
+    if (g_verbose) std::printf("hypot(%s, %s, %s) = %s ref %s %s\n", hx(x).c_str(), hx(y).c_str(), hx(z).c_str(), hx(r).c_str(), hx(a).c_str(), mismatch ? "MISMATCH" : "ok");
+    if (nontriv && ((x == 0x4200 && y == 0x4400 && z == 0x4A00) || (g_tfamily == T_TIES && x == 0x05c3 && y == 0x0594 && (z == 0 || z == 1))))
+        vf::sample("hypot(" + hx(x) + ", " + hx(y) + ", " + hx(z) + ") = " + hx(r) + " ; exact " + hx(a), 3);
+}
+
+// alphabet 0: every exponent field x mantissas {0,1,0x1FF,0x200,0x3FF} x sign (this includes +-0 and subnormals), +-inf, 3 NaNs
+static std::vector<u16> alphabet0()
+{
+    std::vector<u16> v;
+    int mant[] = {0, 1, 0x1FF, 0x200, 0x3FF};
+    for (int s = 0; s < 2; ++s)
+        for (int e = 0; e <= 30; ++e)
+            for (int m : mant) v.push_back(u16((s << 15) | (e << 10) | m));
+    u16 sp[] = {0x7C00, 0xFC00, 0x7E00, 0xFE00, 0x7C01};
+    for (u16 b : sp) v.push_back(b);
+    return v;
+}
+
+// magnitude pattern of the half nearest to |v|
+static inline u16 nearest_mag(double v) { return u16(f2h<double>(std::fabs(v)) & 0x7FFF); }
+
+// z values that make the smallest square barely matter: around 2^-k * max(|x|,|y|), and the neighbouring halves
+static void zlist_scaled(u16 x, u16 y, int k0, int k1, std::vector<u16>& out)
+{
+    u16 ax = x & 0x7FFF, ay = y & 0x7FFF;
+    u16 m = ax > ay ? ax : ay;
+    double base = (m >= 0x7C00 || m == 0) ? 1.0 : h2d(m);
+    for (int k = k0; k <= k1; ++k)
+    {
+        u16 z0 = nearest_mag(std::ldexp(base, -k));
+        if (z0 == 0) z0 = 1;
+        out.push_back(u16(z0 - 1));
+        out.push_back(z0);
+        out.push_back(u16(z0 + 1));
+        out.push_back(u16(z0 | 0x8000));
+    }
+}
+static const u16 Z_SKIP = 0x7FFF;   // marks a duplicate entry of a z list (a NaN pattern that no list produces)
+static void dedupe_keep_positions(std::vector<u16>& v)
+{
+    std::vector<bool> seen(65536, false);
+    for (u16& z : v) { if (seen[z]) z = Z_SKIP; else seen[z] = true; }
+}
+
+struct TripleTask : Task
+{
+    int mode = 1;
+    virtual bool get(unsigned long long i, u16& x, u16& y, u16& z) = 0;   // false: index is a duplicate, nothing to run
+    void run(unsigned long long i) override
+    {
+        u16 x, y, z;
+        if (get(i, x, y, z)) do_hypot3(x, y, z, mode);
+    }
+    std::string describe(unsigned long long i, std::vector<std::string>& rp, std::string& sb) override
+    {
+        u16 x = 0, y = 0, z = 0;
+        get(i, x, y, z);
+        rp = {"--one", "hypot3", hexs(x), hexs(y), hexs(z)};
+        sb = std::string("C09/hypot3/") + cls3(x) + "," + cls3(y) + "," + cls3(z);
+        return "hypot(" + hx(x) + ", " + hx(y) + ", " + hx(z) + ")";
+    }
+};
+struct CubeTask : TripleTask
+{
+    std::vector<u16> xs, vals;
+    unsigned long long size() const override { return (unsigned long long)xs.size() * vals.size() * vals.size(); }
+    bool get(unsigned long long i, u16& x, u16& y, u16& z) override
+    {
+        unsigned long long n = vals.size();
+        x = xs[i / (n * n)]; y = vals[(i / n) % n]; z = vals[i % n];
+        return true;
+    }
+};
+static inline void place(int p, u16 a, u16 b, u16 t, u16& x, u16& y, u16& z)
+{
+    if (p == 0) { x = a; y = b; z = t; } else if (p == 1) { x = a; y = t; z = b; } else { x = t; y = a; z = b; }
+}
+// for all pairs (a, b) of an alphabet: z around 2^-k max(|a|,|b|), k = 10..20, in all three argument positions
+struct DerivedTask : TripleTask
+{
+    std::vector<u16> xs, vals;
+    static const int NZ = 44;
+    unsigned long long cached = ~0ULL;
+    std::vector<u16> zl;
+    unsigned long long size() const override { return (unsigned long long)xs.size() * vals.size() * NZ * 3; }
+    bool get(unsigned long long i, u16& x, u16& y, u16& z) override
+    {
+        unsigned long long pair = i / (NZ * 3);
+        u16 a = xs[pair / vals.size()], b = vals[pair % vals.size()];
+        if (pair != cached) { zl.clear(); zlist_scaled(a, b, 10, 20, zl); dedupe_keep_positions(zl); cached = pair; }
+        u16 t = zl[(i / 3) % NZ];
+        place(int(i % 3), a, b, t, x, y, z);
+        return t != Z_SKIP;
+    }
+};
+// all (a, b) for which sqrt(a^2+b^2) is EXACTLY half way between two neighbouring halves, found with integer arithmetic
+static std::vector<std::pair<u16, u16>> tie_pairs()
+{
+    std::vector<std::pair<u16, u16>> out;
+    // inverse of hmag for exact magnitudes
+    auto mag2h = [](uint64_t M, u16& h) -> bool {
+        if (M == 0 || M >= (uint64_t(1) << 40)) return false;
+        int top = 63 - __builtin_clzll(M);
+        if (top <= 10) { h = u16(M); return true; }              // subnormals and the first normal binade: pattern == magnitude
+        int sh = top - 10;
+        if (M & ((uint64_t(1) << sh) - 1)) return false;
+        h = u16(((sh + 1) << 10) | ((M >> sh) & 1023));
+        return true;
+    };
+    for (unsigned d = 0; d <= 11; ++d)
+        for (uint64_t a = 1024; a < 2048; ++a)
+            for (uint64_t b = 1024; b < 2048; ++b)
+            {
+                u128 s = u128(a << d) * (a << d) + u128(b) * b;
+                uint64_t r = uint64_t(sqrtl((long double)s));
+                while (u128(r) * r > s) --r;
+                while (u128(r + 1) * (r + 1) <= s) ++r;
+                if (u128(r) * r != s) continue;
+                uint64_t M = r;
+                while (!(M & 1)) M >>= 1;
+                if (64 - __builtin_clzll(M) != 12) continue;      // not an odd multiple of half an ulp
+                // place the significand pair at every exponent where both operands are halves
+                for (int sft = -10; sft <= 29; ++sft)
+                {
+                    uint64_t B, A;
+                    if (sft >= 0) { B = b << sft; A = (a << d) << sft; }
+                    else { if ((b & ((1u << -sft) - 1)) || ((a << d) & ((uint64_t(1) << -sft) - 1))) continue; B = b >> -sft; A = (a << d) >> -sft; }
+                    u16 ha, hb;
+                    if (!mag2h(A, ha) || !mag2h(B, hb)) continue;
+                    // confirm on the actual values: exact tie between two finite neighbours
+                    u128 S = u128(A) * A + u128(B) * B;
+                    if (S >= (u128(1) << 80)) continue;
+                    unsigned lo = 0, hi = 0x7C00;
+                    while (hi - lo > 1) { unsigned mid = (lo + hi) / 2; uint64_t m = hmag(mid); if (u128(m) * m <= S) lo = mid; else hi = mid; }
+                    uint64_t ms = hmag(lo) + hmag(hi);
+                    if ((S << 2) != u128(ms) * ms) continue;
+                    out.push_back(std::make_pair(ha, hb));
+                    if (ha != hb) out.push_back(std::make_pair(hb, ha));
+                }
+            }
+    std::sort(out.begin(), out.end());
+    out.erase(std::unique(out.begin(), out.end()), out.end());
+    return out;
+}
+// tie pairs x z: z = +-0, every subnormal, 0x0400, 0x0401, and 2^-k max for k = 1..40 with neighbours; three positions.
+// full = true: position (a, b, z) takes ALL 2^16 z instead.
+struct TiesTask : TripleTask
+{
+    std::vector<std::pair<u16, u16>> pairs;   // this shard
+    bool full = false;
+    std::vector<u16> fixed;
+    static const int NS = 160;                 // scaled part: 40 x 4
+    unsigned long long cached = ~0ULL;
+    std::vector<u16> zl;
+    TiesTask()
+    {
+        fixed.push_back(0); fixed.push_back(0x8000);
+        for (unsigned z = 1; z <= 0x401; ++z) fixed.push_back(u16(z));
+    }
+    unsigned long long nlist() const { return fixed.size() + NS; }
+    unsigned long long per_pair() const { return full ? 65536ULL + 2 * nlist() : 3 * nlist(); }
+    unsigned long long size() const override { return pairs.size() * per_pair(); }
+    bool get(unsigned long long i, u16& x, u16& y, u16& z) override
+    {
+        unsigned long long pair = i / per_pair(), j = i % per_pair();
+        u16 a = pairs[pair].first, b = pairs[pair].second;
+        if (pair != cached)
+        {
+            zl = fixed;
+            zlist_scaled(a, b, 1, 40, zl);
+            dedupe_keep_positions(zl);
+            cached = pair;
+        }
+        int p;
+        u16 t;
+        if (full)
+        {
+            if (j < 65536) { p = 0; t = u16(j); }
+            else { j -= 65536; p = 1 + int(j / nlist()); t = zl[j % nlist()]; }
+        }
+        else { p = int(j / nlist()); t = zl[j % nlist()]; }
+        // the sign of an argument is irrelevant mathematically; exercise it on two of the three positions
+        if (p == 1) a = u16(a | 0x8000);
+        if (p == 2) b = u16(b | 0x8000);
+        place(p, a, b, t, x, y, z);
+        return t != Z_SKIP;
+    }
+};
+
 struct OneTask : Task
 {
     std::vector<std::string> a;
@@ -948,6 +1268,7 @@ struct OneTask : Task
         for (int i = 0; i < n_unary; ++i) if (fn == unaries[i].name) { do_unary(unaries[i], x); return; }
         for (int i = 0; i < n_fn; ++i) if (fn == fnames[i]) { do_floatlike(i, x); return; }
         for (int i = 0; i < 3; ++i) if (fn == sc_names[i]) { do_scale(i, x, int(std::strtol(a.at(2).c_str(), nullptr, 10))); return; }
+        if (fn == "hypot3") { do_hypot3(x, u16(std::strtoul(a.at(2).c_str(), nullptr, 16)), u16(std::strtoul(a.at(3).c_str(), nullptr, 16)), 0); return; }
         for (int i = 0; i < B_N; ++i) if (fn == bnames[i]) { do_binary(i, x, u16(std::strtoul(a.at(2).c_str(), nullptr, 16)), 0); return; }
         std::printf("unknown function %s\n", fn.c_str());
         std::_Exit(4);
@@ -960,7 +1281,8 @@ struct OneTask : Task
         sb = "C09/" + a[0] + "/";
         bool binary = false;
         for (int i = 0; i < B_N; ++i) if (a[0] == bnames[i]) binary = true;
-        if (binary) sb += std::string(cls2(x)) + "," + cls2(u16(std::strtoul(a.at(2).c_str(), nullptr, 16)));
+        if (a[0] == "hypot3") sb += std::string(cls3(x)) + "," + cls3(u16(std::strtoul(a.at(2).c_str(), nullptr, 16))) + "," + cls3(u16(std::strtoul(a.at(3).c_str(), nullptr, 16)));
+        else if (binary) sb += std::string(cls2(x)) + "," + cls2(u16(std::strtoul(a.at(2).c_str(), nullptr, 16)));
         else sb += cls(x);
         std::string w = a[0] + "(" + a[1];
         for (size_t i = 2; i < a.size(); ++i) w += ", " + a[i];
@@ -985,6 +1307,10 @@ int main(int argc, char** argv)
     if (!a.empty() && a[0] == "--noref") { g_noref = true; a.erase(a.begin()); }
     if (a.empty()) { std::fprintf(stderr, "usage: see check.py\n"); return 3; }
     std::string label;
+    for (u16 v : alphabet0()) g_in_a0[v] = 1;
+    for (u16 v : alphabet(1)) g_in_a1[v] = 1;
+    for (u16 v : alphabet(2)) g_in_a2[v] = 1;
+    for (unsigned v = 0; v < 65536; ++v) if (g_in_a0[v] && !g_in_a1[v]) { std::fprintf(stderr, "alphabet 0 is not a subset of alphabet 1: %04x\n", v); return 3; }
     if (a[0] == "--one")
     {
         OneTask t;
@@ -1042,6 +1368,46 @@ int main(int argc, char** argv)
         sweep(t);
         label = a[1] + std::string("/") + a[2];
         if (shard == 0) vf::note(std::string("alphabet ") + a[2] + " has " + vf::str(all.size()) + " values");
+    }
+    else if (a[0] == "--triples")          // --triples cube0|cube1 <mode> <shard> <n> | derived alpha1|alpha2 <shard> <n> | ties list|full <shard> <n>
+    {
+        const std::string& what = a.at(1);
+        if (what == "cube0" || what == "cube1")
+        {
+            CubeTask t;
+            g_tfamily = what == "cube0" ? T_CUBE0 : T_CUBE1;
+            t.vals = what == "cube0" ? alphabet0() : alphabet(1);
+            t.mode = std::atoi(a.at(2).c_str());
+            unsigned shard = unsigned(std::atoi(a.at(3).c_str())), ns = unsigned(std::atoi(a.at(4).c_str()));
+            size_t lo = t.vals.size() * shard / ns, hi = t.vals.size() * (shard + 1) / ns;
+            t.xs.assign(t.vals.begin() + lo, t.vals.begin() + hi);
+            sweep(t);
+            if (shard == 0) vf::note("hypot3 " + what + ": alphabet of " + vf::str(t.vals.size()) + " values, all ordered triples");
+        }
+        else if (what == "derived")
+        {
+            DerivedTask t;
+            g_tfamily = T_DERIVED;
+            t.vals = alphabet(a.at(2) == "alpha1" ? 1 : 2);
+            unsigned shard = unsigned(std::atoi(a.at(3).c_str())), ns = unsigned(std::atoi(a.at(4).c_str()));
+            size_t lo = t.vals.size() * shard / ns, hi = t.vals.size() * (shard + 1) / ns;
+            t.xs.assign(t.vals.begin() + lo, t.vals.begin() + hi);
+            sweep(t);
+        }
+        else if (what == "ties")
+        {
+            TiesTask t;
+            g_tfamily = T_TIES;
+            t.full = a.at(2) == "full";
+            std::vector<std::pair<u16, u16>> all = tie_pairs();
+            unsigned shard = unsigned(std::atoi(a.at(3).c_str())), ns = unsigned(std::atoi(a.at(4).c_str()));
+            size_t lo = all.size() * shard / ns, hi = all.size() * (shard + 1) / ns;
+            t.pairs.assign(all.begin() + lo, all.begin() + hi);
+            sweep(t);
+            if (shard == 0) vf::note("hypot3 ties: " + vf::str(all.size()) + " ordered positive pairs (x,y) with sqrt(x^2+y^2) exactly half way between two halves (found with integer arithmetic)");
+        }
+        else return 3;
+        label = "hypot3/" + what + (what == "cube0" || what == "cube1" ? std::string() : "/" + a.at(2));
     }
     else if (a[0] == "--info")
     {
